@@ -163,6 +163,15 @@ func runC17(c *Ctx) {
 				}
 			}
 			pg := util.StringToGUID(string(t))
+			if rng.Intn(4) == 0 {
+				// the caller owns what it got: changing it must not change what the next caller gets
+				first := *pg
+				pg.Data1, pg.Data4[3] = ^pg.Data1, ^pg.Data4[3]
+				pg = util.StringToGUID(string(t))
+				if *pg != first {
+					pg = &util.EFIGUID{Data1: 0xdeadbeef} // reported below as a wrong parse
+				}
+			}
 			v, info := c.Drv.Eval("guid_parse", hx(t), guidArg(*pg))
 			c.Rep.Record("guid_parse", class+"/"+mode, nt, string(t), []string{hx(t), guidArg(*pg)}, v, info, nil)
 		}
